@@ -27,6 +27,10 @@ pub struct Case {
   /// index of a known root to build again at the end
   pub repeat: u16,
   pub edits: Vec<Vec<Edit>>,
+  /// name a module to reload by the head of the longest redirect chain the
+  /// graph records for it instead of by its final specifier
+  #[serde(default)]
+  pub reload_via_redirect: bool,
 }
 
 fn params(tier: Tier) -> GenParams {
@@ -37,6 +41,8 @@ fn params(tier: Tier) -> GenParams {
     // the sources (the proviso, over time): no attributes, no source maps
     attrs: false,
     source_maps: false,
+    // more redirect chains (reload may name a module by a redirecting URL)
+    w_redirect: 4,
     ..Default::default()
   }
 }
@@ -122,13 +128,14 @@ pub fn spec() -> PropSpec<Case> {
             steps,
             repeat,
             edits,
+            reload_via_redirect: repeat % 2 == 1,
           }
         })
         .boxed()
     },
     check,
     cases: |tier| tier.pick(60_000, 1_200_000),
-    rule: "generated worlds with 1-5 roots; the roots are partitioned into up to three successive build() calls, a known root is built again, then 0-3 rounds of source edits (replace a module's source, delete a file) each followed by reload() of every specifier whose served source changed; non-trivial = (the partition has >= 2 non-empty steps and the graph has >= 3 modules) or (an edit changes the dependency set of a module present in the graph); distinct = distinct case JSON",
+    rule: "generated worlds with 1-5 roots; the roots are partitioned into up to three successive build() calls, a known root is built again, then 0-3 rounds of source edits (replace a module's source, delete a file) each followed by reload() of every specifier whose served source changed (named by its final specifier or, every other case, by the head of the longest redirect chain the graph records for it); non-trivial = (the partition has >= 2 non-empty steps and the graph has >= 3 modules) or (an edit changes the dependency set of a module present in the graph); distinct = distinct case JSON",
     assumptions: &[
       "same-attribute proviso by construction (re-established after every edit; modules whose source changes as a consequence are reloaded too)",
       "no `type` attributes and no source-map URLs in C19 worlds (the class of a target would otherwise change with an edit of its importer)",
@@ -296,12 +303,45 @@ pub fn check(case: &Case, _tier: Tier) -> Outcome {
       let known: BTreeSet<String> = obs::entries(&graph, false).keys().cloned().collect();
       let to_reload: Vec<String> =
         changed.iter().filter(|c| known.contains(*c)).cloned().collect();
+      // the caller may name a module by a specifier that redirects to it
+      let reload_names: Vec<String> = to_reload
+        .iter()
+        .map(|t| {
+          if !case.reload_via_redirect {
+            return t.clone();
+          }
+          let mut best: Option<(usize, String)> = None;
+          for src in graph.redirects.keys() {
+            let mut cur = src.clone();
+            let mut hops = 0;
+            while let Some(n) = graph.redirects.get(&cur) {
+              cur = n.clone();
+              hops += 1;
+              if hops > 40 {
+                break;
+              }
+            }
+            if cur.as_str() == t && best.as_ref().map(|b| hops > b.0).unwrap_or(true) {
+              best = Some((hops, src.to_string()));
+            }
+          }
+          match best {
+            Some((hops, src)) => {
+              if hops >= 2 {
+                o.label("reload-named-through-two-redirects");
+              }
+              src
+            }
+            None => t.clone(),
+          }
+        })
+        .collect();
       let before_mods = obs::serialized_modules(&graph);
       let before_deps: BTreeSet<(String, String, String, bool)> = obs::code_edges(&graph);
       let loader = WorldLoader::from_world(&new_world);
       build_into(
         &mut graph,
-        parse_roots(&to_reload),
+        parse_roots(&reload_names),
         vec![],
         BuildEnv {
           loader: &loader,
